@@ -1,12 +1,17 @@
 #!/usr/bin/env python3
 """Run the pinned suite (or a subset of paths) in parallel and compare the passing set with BASELINE.json."""
 import json, subprocess, sys, tempfile, os, xml.etree.ElementTree as ET
-paths = sys.argv[1:] or ["tests"]
+REPO = os.environ.get("BASELINE_REPO", "/repo")  # a scratch worktree can be tested: its src/ is put first on PYTHONPATH
+ENV = dict(os.environ, PYTHONPATH=f"{REPO}/src")
+paths = [p for p in (sys.argv[1:] or ["tests"]) if os.path.exists(os.path.join(os.environ.get("BASELINE_REPO", "/repo"), p))]
+for p in sys.argv[1:]:
+    if p not in paths:
+        print(f"(ignored, does not exist: {p})")
 base = set(json.load(open("/root/.vp/BASELINE.json"))["stable_pass"])
 with tempfile.TemporaryDirectory() as d:
     x = os.path.join(d, "j.xml")
     subprocess.run(["/venv/bin/python", "-m", "pytest", "-q", "-p", "no:cacheprovider", "--timeout=900", "--continue-on-collection-errors",
-                    "-n", "14", f"--junitxml={x}", *paths], cwd="/repo", stdout=subprocess.DEVNULL, stderr=subprocess.DEVNULL)
+                    "-n", "14", f"--junitxml={x}", *paths], cwd=REPO, env=ENV, stdout=subprocess.DEVNULL, stderr=subprocess.DEVNULL)
     passed, failed = set(), set()
     for tc in ET.parse(x).getroot().iter("testcase"):
         name = f"{tc.get('classname')}::{tc.get('name')}"
@@ -22,7 +27,7 @@ if missing and len(missing) <= 60:
     with tempfile.TemporaryDirectory() as d:
         x = os.path.join(d, "j.xml")
         subprocess.run(["/venv/bin/python", "-m", "pytest", "-q", "-p", "no:cacheprovider", "--timeout=900", f"--junitxml={x}", *files],
-                       cwd="/repo", stdout=subprocess.DEVNULL, stderr=subprocess.DEVNULL)
+                       cwd=REPO, env=ENV, stdout=subprocess.DEVNULL, stderr=subprocess.DEVNULL)
         for tc in ET.parse(x).getroot().iter("testcase"):
             if not any(c.tag in ("failure", "error", "skipped") for c in tc):
                 passed.add(f"{tc.get('classname')}::{tc.get('name')}")
